@@ -62,6 +62,7 @@ type c19Apply struct {
 	rules map[string]*c19Rule
 }
 type c19Rule struct {
+	hasCond bool // the guard is a presence test (HasK()), not the value getter
 	pos     token.Pos
 	fields  []string
 	getters []string
@@ -117,11 +118,27 @@ func (c *Ctx) c19ParseApply(fn *types.Func) *c19Apply {
 		return ""
 	}
 	fmtArgs := map[ast.Expr]bool{}
+	condIsPresence := func(e ast.Expr) bool {
+		pres := false
+		ast.Inspect(e, func(n ast.Node) bool {
+			if call, ok := n.(*ast.CallExpr); ok {
+				if sel, ok := call.Fun.(*ast.SelectorExpr); ok && types.ExprString(sel.X) == a.rcName && strings.HasPrefix(sel.Sel.Name, "Has") {
+					pres = true
+				}
+			}
+			return true
+		})
+		return pres
+	}
+	var curCond ast.Expr
 	collect := func(rule string, pos token.Pos, body []ast.Stmt) {
 		ru := a.rules[rule]
 		if ru == nil {
 			ru = &c19Rule{pos: pos}
 			a.rules[rule] = ru
+		}
+		if curCond != nil && condIsPresence(curCond) {
+			ru.hasCond = true
 		}
 		for _, st := range body {
 			ast.Inspect(st, func(n ast.Node) bool {
@@ -190,7 +207,9 @@ func (c *Ctx) c19ParseApply(fn *types.Func) *c19Apply {
 		switch x := st.(type) {
 		case *ast.IfStmt:
 			if rule := ruleOfCond(x.Cond); rule != "" {
+				curCond = x.Cond
 				collect(rule, x.Pos(), x.Body.List)
+				curCond = nil
 			}
 		case *ast.SwitchStmt:
 			if x.Tag != nil {
@@ -299,7 +318,17 @@ func checkC19(c *Ctx) {
 						}
 					}
 					if rule == "Unique" {
-						okG = true // boolean rule: the presence test is the value
+						// boolean rule: the value getter used as the guard is the value; a presence test (HasUnique) is also
+						// true for an explicit `unique: false`, which must not publish uniqueItems: true
+						valueRead := false
+						for _, g := range ru.getters {
+							if g == "Unique" {
+								valueRead = true
+							}
+						}
+						r.Check(!ru.hasCond || valueRead, "R19b", fmt.Sprintf("%s: boolean rule %s is published by its value, not by its presence", fn.Name(), rule), rpos,
+							fmt.Sprintf("%s publishes %s under the presence test Has%s() without reading the value: an explicit `%s: false` is published as true, so lists the rules accept (duplicates allowed) are rejected by the schema", fn.Name(), c19Keyword[rule], rule, strings.ToLower(rule)))
+						okG = true
 						ru.getters = append(ru.getters, "Unique")
 					}
 					r.Check(okG && len(ru.getters) > 0, "R19b", fmt.Sprintf("%s: rule %s publishes its own value", fn.Name(), rule), rpos,
